@@ -14,13 +14,20 @@ PROP = "C13"
 FUNCTIONS = ["symbolic_attractor_test", "compute_attractors_symbolic", "compute_attractor_candidates", "run_simulation_minification",
              "asp_greedy_retained_set_optimization", "expand_bfs/dfs/minimal_spaces/attractor_seeds/to_target/source_blocks/source_SCCs",
              "SuccessionDiagram.skip_to_minimal/skip_remaining/build", "succession_control"]
-SINGLE = ["fullbfs", "fulldfs", "fmin", "faseeds", "block", "scc", "build", "target", "skiprem"]
+SINGLE = ["fullbfs", "fulldfs", "fmin", "faseeds", "block", "scc", "build", "target", "skiprem", "control"]
 QUERY = ["seeds", "sets", "cands"]
 PREFIX = [(), ("succ",), ("bfs",), ("fullbfs",), ("succ", "skiprem"), ("succ", "skip")]
 
 
+def extra_vars(task, net):
+    if task["params"].get("cfg"):
+        return hist.declare_config()
+    return [], []
+
+
 def execute(rules, skeleton, H, names, params):
-    sd, trace = hist.run_history(rules, skeleton, H, names, attractors=False)
+    cfg = hist.read_config(H, isinstance(H, hist.SymH)) if params.get("cfg") else None
+    sd, trace = hist.run_history(rules, skeleton, H, names, attractors=False, config=cfg)
     return {"trace": trace}
 
 
@@ -59,6 +66,11 @@ def tasks(tier, seed, selftest=False):
         for qy in QUERY:
             S.append(dict(family="U2", skeleton=tuple(p) + (qy,), timebox=10 if q else 600))
             S.append(dict(family="D3", skeleton=tuple(p) + (qy,), timebox=12 if q else 900))
+    # every numeric configuration field symbolic (0..5 or default): thresholds select other loops (regeneration, greedy)
+    for fam in ("U2", "D3", "N3"):
+        for qy in ("cands", "seeds"):
+            S.append(dict(family=fam, skeleton=(qy,), timebox=12 if q else 600, tag="cfg", params={"cfg": True}))
+            S.append(dict(family=fam, skeleton=("succ", qy), timebox=10 if q else 600, tag="cfg", params={"cfg": True}))
     # four free variables: the simulation budget (1000 x variables) exceeds the first pass only from here on
     for fam in ("P:SW2+SW2", "B22"):
         for qy in ("seeds", "cands"):
@@ -70,6 +82,8 @@ def tasks(tier, seed, selftest=False):
         for qy in ("seeds", "sets"):
             S.append(dict(family="U2", skeleton=tuple(p) + (qy,), timebox=10 if q else 600, tag="fine", params={"fine": True}))
             S.append(dict(family="D3", skeleton=tuple(p) + (qy,), timebox=15 if q else 900, tag="fine", params={"fine": True}))
+            # decision point: forward growth always declined by the size heuristic (the livelock's trigger), whatever the real sizes
+            S.append(dict(family="D3", skeleton=tuple(p) + (qy,), timebox=12 if q else 600, tag="decline", params={"fine": True, "size_mode": "decline"}))
     if not q:
         for qy in ("seeds", "sets"):
             S.append(dict(family="U3", skeleton=(qy,), timebox=600, cube_k=5, nbits=24))
